@@ -18,7 +18,7 @@ RULE = ("generated well-formed headers of every level (random typed fields and e
 
 
 def budget(tier):
-    return 10 if tier == "quick" else 120     # base headers
+    return 10 if tier == "quick" else 300     # base headers
 
 
 def sj(c_out, s_out):
